@@ -313,6 +313,9 @@ func (p *parser) addEventParamsToScope(e *EventHandlerStmt) {
 		if !param.Type().Equals(exptectedType) {
 			p.appendError(fmt.Sprintf("wrong type for parameter %s, expected %s, got %s", param.Name, exptectedType, param.Type()))
 		}
+		if param.Type() == nil {
+			continue // invalid type declaration, already reported: not a variable of the body
+		}
 		p.scope.set(param.Name, param)
 	}
 }
